@@ -655,6 +655,18 @@ m('column-scan-stops-at-first-foreign-row', ['C10', 'C09'], CAT, """			if tableO
 				}
 				continue
 			}""", ['C10-R6 [RecoveryCatalogFromCatalogPage:catalog-scan-runs-to-the-end'])
+m('unlock-stops-after-first-exclusive-row', ['C05', 'C03'], LK, """				delete(lockManager.exclusiveLockTable, lockedRID)
+			}""", """				delete(lockManager.exclusiveLockTable, lockedRID)
+				break
+			}""", ['C03-R7 [LockManager.Unlock:loops-run-to-completion]'])
+m('undo-gives-up-after-first-loser', ['C02', 'C03'], LR, """			lsn = logRecord.PrevLSN
+			// fmt.Printf("lsn at Undo loop bottom: %d\\n", lsn)
+		}""", """			lsn = logRecord.PrevLSN
+			// fmt.Printf("lsn at Undo loop bottom: %d\\n", lsn)
+		}
+		if isUndoOccured {
+			break
+		}""", ['C03-R7 [LogRecovery.Undo:loops-run-to-completion]'])
 # drop the one that needs a helper that does not exist
 M = [x for x in M if x['id'] != 'insert-executor-unlocks-early']
 os.chdir(os.path.dirname(os.path.abspath(__file__)) + '/..')
